@@ -172,7 +172,7 @@ fn reply_name(code: u8) -> Option<&'static str> {
 fn dialogue_part(rep: &Arc<Reporter>, args: &Args) {
     let rt = env::rt_paused();
     let mut r = Rng::derive(args.seed, 0xc15, 0);
-    let n = args.qt(6_000u64, 400_000u64);
+    let n = args.qt(40_000u64, 3_000_000u64);
     for i in 0..n {
         // --- client side inputs ---
         let ulen = *r.pick(&[0usize, 1, 5, 254, 255, 256, 300, 600]);
